@@ -535,15 +535,15 @@ fn routes(tier: Tier, cli: &str, st: &mut Stats, all_lines: &mut Vec<Value>) {
                     "actual": format!("exit status {:?}; stdout starts {:?}", o.status.code(), String::from_utf8_lossy(&o.stdout).chars().take(80).collect::<String>())}));
             }
             // Compile::run in a child (isolates panics/aborts), and run_exit_on_error
-            for (mode, expect_status) in [("run", if lib_ok { 0 } else { 7 }), ("exit", if lib_ok { 0 } else { 1 })] {
+            for (mode, expect_status) in [("run", if lib_ok { 0 } else { 7 }), ("exit", if lib_ok { 0 } else { 1 }), ("run3", if lib_ok { 0 } else { 7 })] {
                 let dest = dir.join(format!("g{i}-{mode}.rs"));
                 let o = Command::new(&exe).args(["c15compile", mode, gpath.to_str().unwrap(), dest.to_str().unwrap()]).stdout(Stdio::null()).stderr(Stdio::null()).status().unwrap();
                 evals += 1;
                 counters.push(("compile_runs", 1));
                 if o.code() != Some(expect_status) {
                     lines.push(json!({"k":"viol","prop":"C15","kind": format!("compile-{mode}-status"),"grammar": text, "input": null, "family":"routes", "why": why,
-                        "site": format!("Compile::{}", if mode == "run" {"run"} else {"run_exit_on_error"}),
-                        "expected": format!("child status {expect_status} (0 = Ok, 7 = Err from run(), 1 = exit code of run_exit_on_error)"),
+                        "site": format!("Compile::{}", match mode { "run" => "run", "run3" => "run (three times, same destination)", _ => "run_exit_on_error" }),
+                        "expected": format!("child status {expect_status} (0 = Ok, 7 = Err from run(), 1 = exit code of run_exit_on_error, 9 = answers differ between repeated runs)"),
                         "actual": format!("{:?}", o.code())}));
                 }
             }
@@ -594,6 +594,17 @@ pub fn one() {
 }
 
 pub fn compile_child(args: &[String]) {
+    if args[0] == "run3" {
+        // the same grammar compiled three times to the same destination: the answer must not change
+        let mut codes = Vec::new();
+        for _ in 0..3 {
+            codes.push(match Compile::file(&args[1]).destination(&args[2]).run() {
+                Ok(()) => 0,
+                Err(_) => 7,
+            });
+        }
+        std::process::exit(if codes.iter().all(|c| *c == codes[0]) { codes[0] } else { 9 });
+    }
     let c = Compile::file(&args[1]).destination(&args[2]);
     if args[0] == "run" {
         match c.run() {
